@@ -130,12 +130,30 @@ func c18Deps(t *kernel.Tape, names []string, vers map[string][]string, from, max
 	// built from one section must not leak into each other)
 	for _, sec := range []*[]svcDep{&d.Dev, &d.Opt, &d.Peer} {
 		if t.Bool(1, 5) {
-			for i, n := 0, 1+t.Choose(3); i < n; i++ {
+			k := 3
+			if max > 8 {
+				k = 8 // a wide package.json, see c18Gen
+			}
+			for i, n := 0, 1+t.Choose(k); i < n; i++ {
 				addUnique(sec, one())
 			}
 		}
 	}
-	if len(d.Deps) > 0 && t.Bool(1, 4) {
+	if max > 8 {
+		// wide: bundleDependencies lists several of the names (npm's
+		// "bundleDependencies": true lists them all), regular and optional
+		for _, sec := range [][]svcDep{d.Deps, d.Opt} {
+			for _, x := range sec {
+				dup := false
+				for _, y := range d.Bundle {
+					dup = dup || y == x.Name
+				}
+				if !dup && t.Bool(1, 3) {
+					d.Bundle = append(d.Bundle, x.Name)
+				}
+			}
+		}
+	} else if len(d.Deps) > 0 && t.Bool(1, 4) {
 		d.Bundle = append(d.Bundle, d.Deps[t.Choose(len(d.Deps))].Name)
 	}
 	return d
@@ -174,7 +192,15 @@ func c18Gen(t *kernel.Tape, maxPkgs int) *svcSpec {
 			def = t.Choose(len(vers[nm]))
 		}
 		for vi, v := range vers[nm] {
-			sv := svcVersion{V: v, Default: vi == def, Deps: c18Deps(t, names, vers, i, 3)}
+			// mostly a handful of dependencies; now and then a wide
+			// package.json (more than a dozen entries over the sections, so
+			// that the same name in two sections, or an alias together with
+			// its bundleDependencies entry, meets the sorting of long lists)
+			mx := 3
+			if t.Bool(1, 12) {
+				mx = 16
+			}
+			sv := svcVersion{V: v, Default: vi == def, Deps: c18Deps(t, names, vers, i, mx)}
 			if i < 3 && t.Bool(1, 2) {
 				// a bundle tree of depth <= 3
 				nb := t.Range(1, 3)
